@@ -45,6 +45,10 @@ SPEC = {
 }
 
 
+class EventStorm(Exception):
+    pass
+
+
 class Lifecycle:
     """Bus monitor: creation / initialisation logs."""
 
@@ -96,6 +100,12 @@ class Lifecycle:
                       f'{rec["inits"]} times')
 
     def dispatch(self, ev):
+        # a run that executes events without end (e.g. a scheduler looping at one instant) is stopped with a verdict
+        self.n_events = getattr(self, 'n_events', 0) + 1
+        if self.n_events > 400000:
+            self.fail('event_storm', f'more than 400000 events executed in one scenario (clock {ev.time!r}, last action '
+                      f'{instrument.action_name(ev.action)})')
+            raise EventStorm()
         rec = self.by_asset_id.get(ev.asset_id)
         if rec is not None and rec['inits'] < 1 and not ev.cancelled:
             self.fail('event_before_initialise', f'event {instrument.action_name(ev.action)} of {rec["asset"].name} '
